@@ -856,6 +856,11 @@ impl<'a> Parser<'a> {
                 Keyword::COMPUTE,
             ]) {
                 Some(Keyword::PARTITION) => {
+                    if partitions.is_some() {
+                        // a second PARTITION list: not ours, leave it to the caller
+                        self.prev_token();
+                        break;
+                    }
                     self.expect_token(&Token::LParen)?;
                     partitions = Some(self.parse_comma_separated(Parser::parse_expr)?);
                     self.expect_token(&Token::RParen)?;
@@ -9923,6 +9928,9 @@ impl<'a> Parser<'a> {
                     }
                     _ if natural => {
                         return self.expected("a join type after NATURAL", self.peek_token());
+                    }
+                    _ if global => {
+                        return self.expected("a join type after GLOBAL", self.peek_token());
                     }
                     _ => break,
                 };
